@@ -6,7 +6,10 @@ mod pp;
 mod p01;
 mod p02;
 mod p04;
+mod p06;
 mod p07;
+mod p09;
+mod strspec;
 mod p03;
 mod p10;
 mod p23;
@@ -44,7 +47,9 @@ fn main() {
         "C02" => p02::run(&mut ctx),
         "C03" => p03::run(&mut ctx),
         "C04" => p04::run(&mut ctx),
+        "C06" => p06::run(&mut ctx),
         "C07" => p07::run(&mut ctx),
+        "C09" => p09::run(&mut ctx),
         "C10" => p10::run(&mut ctx),
         "C23" => p23::run(&mut ctx),
         "C25" => p25::run(&mut ctx),
